@@ -305,7 +305,11 @@ pub fn c10_sched(thorough: bool) -> Vec<Unit> {
     ];
     let mut v: Vec<Unit> = progs
         .into_iter()
-        .map(|(n, p, t, s)| explore_unit(format!("sched/{}", n), format!("{:?}: per-name linearizability (brute force over all orders consistent with real time) and quiescent-state consistency", p), Bounds::new(d), ExecCfg::default(), c10_scenario(n, p, t, s)))
+        .map(|(n, p, t, s)| {
+            // the creation overtaken by a deletion needs two tasks held back at once: these small programs run two levels deeper
+            let dd = if n == "create-absent-sub‖delete-sub" { d + 2 } else { d };
+            explore_unit(format!("sched/{}", n), format!("{:?}: per-name linearizability (brute force over all orders consistent with real time) and quiescent-state consistency", p), Bounds::new(dd), ExecCfg::default(), c10_scenario(n, p, t, s))
+        })
         .collect();
     let ab: Vec<(&'static str, Vec<Vec<COp>>, bool, bool)> = vec![
         ("abandoned-delete-sub‖get;delete;create", vec![vec![DeleteSub(S0)], vec![GetSub(S0), DeleteSub(S0), CreateSub(S0, T0), GetSub(S0)]], true, true),
